@@ -104,26 +104,33 @@ def eb_dist(rs):
     return d
 
 def tcpc_dist(rs):
-    d = {"cases": len(rs), "skipped_unreliable": 0, "candidates": {}, "outcomes": {}, "with_hang_candidate": 0, "bind6": 0}
+    d = {"cases": len(rs), "skipped_unreliable": 0, "candidates": {}, "outcomes": {}, "with_hang_candidate": 0, "bind6": 0,
+         "through_the_resolver": 0, "single_candidate": 0, "no_overall_deadline": 0}
     for r in rs:
         parts = [p.split() for p in r["input"].split(";")]
         if r["obs"] == "unreliable":
             d["skipped_unreliable"] += 1
             continue
-        d["bind6"] += parts[0][-1] in ("1", "wx", "sx")
+        head = parts[0][1:] if parts[0] and parts[0][0] == "tcpc" else parts[0]
+        via = head[4] if len(head) > 4 else "a"
+        t, conc, ct, loc = head[0], head[1], head[2], head[3]
+        d["through_the_resolver"] += via == "c"
+        d["no_overall_deadline"] += t == "-"
+        d["bind6"] += loc in ("1", "wx", "sx")
         ks = [p[0] for p in parts[1:] if p]
+        d["single_candidate"] += len(ks) == 1
         d["with_hang_candidate"] += "hang" in ks
-        loc = {"0": "--", "1": "-x"}.get(parts[0][-1], parts[0][-1])
+        loc = {"0": "--", "1": "-x"}.get(loc, loc)
         d.setdefault("local_addresses", {})
         d["local_addresses"][loc] = d["local_addresses"].get(loc, 0) + 1
-        d["order_decides_outcome"] = d.get("order_decides_outcome", 0) + (parts[0][-3] == "1" and "hang" not in ks)
+        d["order_decides_outcome"] = d.get("order_decides_outcome", 0) + (conc == "1" and "hang" not in ks)
         for k in ks:
             d["candidates"][k] = d["candidates"].get(k, 0) + 1
         o = r["obs"].split()[0]
         d["outcomes"][o] = d["outcomes"].get(o, 0) + 1
     return d
 
-TCPC_STREAM = {"name": "tcpc", "quick": 50, "thorough": 2000, "sep": ";", "batch": 500,
+TCPC_STREAM = {"name": "tcpc", "quick": 60, "thorough": 2000, "sep": ";", "batch": 500,
                "nontrivial": lambda r: len(r["input"].split(";")) > 2, "distribution": tcpc_dist}
 EB_STREAMS = [{"name": "eb", "quick": 6000, "thorough": 200000, "head": 5, "unit": 2, "exhaustive": "eb-exhaustive",
                "nontrivial": eb_nontrivial, "distribution": eb_dist}, TCPC_STREAM]
@@ -133,7 +140,10 @@ EB_RULE = ("scripted attempts (n<=5; latency none/0/grid, outcome ok/err) x stag
            "TcpTransport::connect_to_addrs on loopback sockets in real time - 1-5 candidates that accept at once (IPv4/IPv6 listener), refuse "
            "at once (closed port) or never answer (listener with a full accept queue), happy_eyeballs_timeout none/300/600 ms, concurrency "
            "none/1/2, per-attempt connect_timeout none/120 ms, optionally an unassignable local IPv6 address so that IPv6 candidates fail during "
-           "set-up; compared with the composition address order (C16 model) -> TcpConnecting glue (delay = deadline / candidates) -> "
+           "set-up; one case in six without an overall deadline and a never-answering candidate ahead of one that answers (only the "
+           "per-attempt timeout gets past it); one in five through the transport as a service (call with a URI, a resolver that answers "
+           "with 1-4 candidates, all on the URI's port on different loopback addresses - TcpTransport::connect(host, port)), often a "
+           "single candidate, with a deadline shorter than the per-attempt timeout or the only bound there is; compared with the composition address order (C16 model) -> TcpConnecting glue (delay = deadline / candidates) -> "
            "happy-eyeballs model: winner or kind of the first error, elapsed time within 70 ms, and no listener accepted a connection for a "
            "candidate the model never starts; ties and cases during which the machine stalled are skipped")
 EB_ASSUMES = ["tokio timer semantics under the paused clock (inner future polled before the timer; timers fire at their deadline)",
@@ -697,9 +707,16 @@ PROPS = {
              "nontrivial": lambda r: any(t in ("https", "wss") for t in r["input"].split()) and any(t in ("http", "ws") for t in r["input"].split()),
              "distribution": lambda rs: {"sequences": len(rs), "requests": sum(len(r["input"].split(";")) - 1 for r in rs),
                                          "mixing_plain_and_secure": sum(1 for r in rs if any(t in ("https", "wss") for t in r["input"].split()) and any(t in ("http", "ws") for t in r["input"].split())),
+                                         "builder_order": {o: sum(1 for r in rs if (r["input"].split(";")[0].split() + ["0"] * 4)[3] == o) for o in "012345"},
                                          "connections": sum(len(r["obs"].split(";")[-1].split()) for r in rs)}},
+            {"name": "tlsd", "quick": 8, "thorough": 40, "head": 1, "unit": 1,
+             "nontrivial": lambda r: "wire=tls" in r["obs"],
+             "distribution": lambda rs: {"cases": len(rs), "secure_schemes": sum("wire=tls" in r["obs"] for r in rs)}},
         ],
-        "rule": "the real TlsTransport (with / without a rustls ClientConfig trusting harness/certs/ca.pem) around an inner transport "
+        "rule": "tlsd: TlsTransport::<TcpTransport>::default() in a process in which no rustls crypto provider has been installed (this "
+                "stream's process never does), asked to connect for https / wss / http / ws URIs to a loopback listener that records "
+                "what arrives first | tlsp: where with_tls comes among the builder calls is varied too (last, first, before the "
+                "transport, between transport and protocol, on Builder::default()) | the real TlsTransport (with / without a rustls ClientConfig trusting harness/certs/ca.pem) around an inner transport "
                 "whose IO is an in-memory duplex; the peer end records every raw byte and is a real rustls server with a matching "
                 "(example.com, *.example.com, localhost, 127.0.0.1, ::1), other-name or untrusted certificate, or speaks plaintext, "
                 "closes before/after the first flight, truncates the handshake, sends a fatal alert, or stays silent. Schemes "
